@@ -13,3 +13,14 @@ pub fn bad_header(name: &str, value: String) -> Response {
     r.append_header(name, value);
     r
 }
+
+/// control for C14 R14.g: editing a URL (must be matched by the who-may-call rule)
+pub fn strip_fragment(mut url: crux_http::http::Url) -> crux_http::http::Url {
+    url.set_fragment(None);
+    url
+}
+
+/// control for C17 R17.e: constructing a KeyValueError in the core (errors must come from the shell)
+pub fn fabricate_kv_error() -> crux_kv::error::KeyValueError {
+    crux_kv::error::KeyValueError::Other { message: "made up".to_string() }
+}
